@@ -156,10 +156,13 @@ def cases(tier, seed):
             yield {"layer": "L", "live": li, "first": first, "depth": 2 if tier == "quick" else 3, "seed": seed}
 
 
-def execute(scn, seed, v6=False, cutter=None, mss=1460):
+def execute(scn, seed, v6=False, cutter=None, mss=1460, duplex=False, merged=False):
     conn = scen.tls_conn(scn, seed)
     ends = cap.Ends(3, v6=v6)
-    pk = cap.stamp(scen.tls_packets(conn, cutter=cutter, mss=mss), {0: ends})
+    base = scen.tls_packets(conn, cutter=cutter, mss=mss, merged=merged)
+    if duplex:
+        base = scen.duplex_interleave(base, scen.first_app_packet(conn, base))
+    pk = cap.stamp(base, {0: ends})
     res = scen.run(pk, conn.keylog)
     try:
         an = scen.analyse(res)
@@ -362,6 +365,11 @@ def run_case(case):
         for v6 in (False, True):
             for mss in (1460, 100, 9):
                 one(scn, {"layer": "D", "class": cname, "v6": v6, "mss": mss}, v6=v6, mss=mss)
+        # full-duplex capture order in the application phase (packets of one direction between the segments of a record
+        # of the other), records sharing segments
+        scn2 = dict(scn, history=[("c", 1000), ("s", 30), ("c", 900), ("s", 1100), ("c", 20), ("s", 700), ("c", 5)])
+        one(scn2, {"layer": "D", "class": cname, "capture": "duplex"}, duplex=True, mss=400)
+        one(scn2, {"layer": "D", "class": cname, "capture": "duplex_merged"}, duplex=True, mss=333, merged=True)
 
     r = {"n": n, "fails": fails, "nontrivial": nontriv, "outcomes": sorted(outcomes), "count": count}
     if sample:
